@@ -140,6 +140,14 @@ def run(pid, tier, replay_file=None):
                     continue
                 if o["kind"] == "ok" and isinstance(pyvals[vi], dict):
                     nontrivial.add(si)
+                if o["kind"] == p["kind"]:
+                    if (vi + 1) in st["m05w"]:
+                        rep.violation(("C05w", _kwsig(st["doc"])),
+                                      "object class rejects data omitting a required property that declares a default: "
+                                      + _msg05(st, pyvals[vi], o), _payload(st, vi, o))
+                elif o["kind"] != "ok" and isinstance(pyvals[vi], dict):
+                    add_event(si, vi, '[id |-> @ID@, p |-> "C05w", doc |-> %s, v |-> %s, kind |-> %s]'
+                              % (doc_tla(), tlajson_to_tla(tagged_values[vi]), codec.tla_str(o["kind"])))
                 if same and dobs_same:
                     if (vi + 1) in st["m05"]:
                         rep.violation(("C05", _kwsig(st["doc"])),
